@@ -245,6 +245,54 @@ void wrappers()
       fcppt::recursive<int> const copy(r);
       wrap_end(copy.get(), -1, 0, 0);
     }
+    // the assignment operators of recursive: afterwards the wrapper exposes (a copy of) the assigned object,
+    // also when the target had been moved from before ("exposes exactly the wrapped object")
+    W("recursive-copy-assign", v)
+    {
+      fcppt::recursive<int> const src(v);
+      fcppt::recursive<int> r(v + 5);
+      r = src;
+      int const out = r.get();
+      r.get() = w;
+      wrap_end(out, -1, w, r.get());
+    }
+    W("recursive-copy-assign-into-moved-from", v)
+    {
+      fcppt::recursive<int> const src(v);
+      fcppt::recursive<int> r(v + 5);
+      fcppt::recursive<int> const taken(std::move(r));
+      r = src;
+      int const out = r.get();
+      r.get() = w;
+      wrap_end(out, -1, w, r.get());
+    }
+    W("recursive-move-assign", v)
+    {
+      fcppt::recursive<int> src(v);
+      fcppt::recursive<int> r(v + 5);
+      r = std::move(src);
+      int const out = r.get();
+      r.get() = w;
+      wrap_end(out, -1, w, r.get());
+    }
+    W("recursive-move-assign-into-moved-from", v)
+    {
+      fcppt::recursive<int> src(v);
+      fcppt::recursive<int> r(v + 5);
+      fcppt::recursive<int> const taken(std::move(r));
+      r = std::move(src);
+      int const out = r.get();
+      r.get() = w;
+      wrap_end(out, -1, w, r.get());
+    }
+    W("recursive-move-ctor", v)
+    {
+      fcppt::recursive<int> src(v);
+      fcppt::recursive<int> r(std::move(src));
+      int const out = r.get();
+      r.get() = w;
+      wrap_end(out, -1, w, r.get());
+    }
     W("make_recursive", v)
     {
       auto r(fcppt::make_recursive(v));
